@@ -587,7 +587,7 @@ fn run_property(prop: &str, ctx: &mut Ctx) {
         "C18" => {
             ctx.strings("C18.dedent", "removes exactly the longest common whitespace margin; idempotent; dedent(indent(s,p)) == dedent(s)", A_DEDENT, l(7, 9), vec![0], vec![""], c18_dedent);
             ctx.strings_random("C18.dedent.random", "same (long random texts, sampled)", false, 30, if th { 5_000_000 } else { 40_000 }, vec![0], vec![""], c18_dedent);
-            // the std fact U9's two corollary theorems rest on (str::lines == split_terminator('\n') without carriage returns), on the real str::lines
+            // the std fact U9's corollary theorems rest on (axiom lines_model: str::lines == lines_c), on the real str::lines
             ctx.strings("A4.std_models", "the std behaviour the Verus side-cars assume of their transparent wrappers (lines, lines == split_terminator without CR, split with positions, split_terminator, trim*, ...)",
                 &[" ", "a", "\n", "\r", "-", "é", "\t", "\u{3000}"], l(5, 6), vec![0], vec![""], a4_std_models);
         }
